@@ -39,10 +39,6 @@ Definition place_last {V} (d : V) (idx_pit : list Z) (conn : list bool) (vals ol
      connected_rows = connected[last_section]; switched = FROM_NODE_T_SWITCHED[last_section]
      outlet_section = where(switched, first_section, last_section)
      res[connected_rows] = values[outlet_section[connected_rows]] *)
-Fixpoint fmask_from (prev : Z) (l : list Z) : list bool :=
-  match l with [] => [] | k :: r => negb (k =? prev) :: fmask_from k r end.
-Definition fmask (idx : list Z) : list bool :=       (* non-empty tables only *)
-  match idx with [] => [] | k :: r => true :: fmask_from k r end.
 
 Definition place_outlet {V} (d : V) (idx_pit : list Z) (conn sw : list bool) (vals old : list V) : option (list V) :=
   let pos := seq 0 (length idx_pit) in
